@@ -12,7 +12,7 @@ import numpy as np
 
 from .oracle import refq
 
-ENTRY_CLASSES = ["gauss", "int", "pure_imag", "single_axis", "zeros", "sparse", "mixed_mag", "huge", "tiny", "nonpos", "nonneg", "nonpos_sparse", "sum_zero", "neg_real"]
+ENTRY_CLASSES = ["gauss", "int", "pure_imag", "single_axis", "zeros", "sparse", "mixed_mag", "huge", "tiny", "nonpos", "nonneg", "nonpos_sparse", "sum_zero", "neg_real", "two_axis"]
 
 
 def rng_for(seed: int, *key) -> np.random.Generator:
@@ -33,6 +33,11 @@ def entries(rng, cls: str, m: int, n: int) -> np.ndarray:
         c = np.zeros((m, n, 4))
         ax = int(rng.integers(0, 4))
         c[..., ax] = rng.standard_normal((m, n))
+    elif cls == "two_axis":          # only two of the four components are populated (e.g. real + k, i + j): the other planes are exactly 0
+        c = np.zeros((m, n, 4))
+        ax = rng.choice(4, size=2, replace=False)
+        c[..., ax[0]] = rng.standard_normal((m, n))
+        c[..., ax[1]] = rng.standard_normal((m, n))
     elif cls == "zeros":
         c = np.zeros((m, n, 4))
     elif cls == "sparse":
